@@ -8,11 +8,14 @@ PROP = dict(
              shards_quick=8, shards_thorough=16, timeout_quick=600, timeout_thorough=3600),
     ],
     rule=("A case is one canvas operation (or a history of up to 25) with its complete arguments, the geometry/format of both canvases and the "
-          "content seed. Exhaustive part: every canvas 0..4 (quick) / 0..8 (thorough) per side with every coordinate in [-2,size+2] / [-3,size+3]: "
+          "content seed and the maximum sample value of each canvas (the all-ones value of the channel width, or - in a quarter of the random canvases and in extra "
+          "enumerated passes - another value in [1, all-ones), the canvas then being built through the raw-data constructors Image(FILE*/const char*/string, w, h, alpha, "
+          "width, max_value) or by loading a P6/P7 file with that MAXVAL; the model carries the value, and after every operation it is observed through the alpha that "
+          "read_pixel reports on an opaque canvas and through operator== against an image constructed with the model's geometry, bytes and maximum value). Exhaustive part: every canvas 0..4 (quick) / 0..8 (thorough) per side with every coordinate in [-2,size+2] / [-3,size+3]: "
           "pixel access and fill_rect over the full 2-D product, the ten blits over (x, w, sx, dest size, source size) of one axis x 8 fixed "
-          "configurations of the other axis and transposed, draw_line over all end-point pairs, dashed lines, text positions, whole-image "
-          "transforms. Random part (rapidcheck): full-product sampling on canvases up to 40x40, coordinates incl. +-2^31, histories on two "
-          "canvases, clipping-invariance pairs, identities. Non-trivial: the requested rectangle / segment / glyph box is cut by at least one "
+          "configurations of the other axis and transposed, draw_line over all end-point pairs, dashed lines, text positions, every text length 0..600 (quick) / 0..2100 (thorough) and 2^k-3..2^k+2 up to 4096 / 65536, as one line and "
+          "with line breaks, positioned so that the END of the text is on the canvas, whole-image transforms and identities (also on canvases with 4 other maximum values). Random part (rapidcheck): full-product sampling on canvases up to 40x40, coordinates incl. +-2^31, histories on two "
+          "canvases, clipping-invariance pairs, identities (pixelwise and by operator==), a tenth of the random texts long (8..300 characters or 2^k+-2) with their end placed on the canvas. Non-trivial: the requested rectangle / segment / glyph box is cut by at least one "
           "canvas edge (destination or source) or the pixel coordinate is outside; histories additionally use >= 2 kinds of operation. "
           "Distinct by (operation, canvas geometry, arguments) hash."),
     assumptions=[
@@ -23,6 +26,9 @@ PROP = dict(
         "lines: exact path properties for in-canvas end points, subset-of-ideal-pixels otherwise (phosg stops at the first pixel outside the canvas)",
         "|coordinates| <= 2^31+4 (direct pixel access also INT64_MIN/MAX); dash lengths <= 64 when the coordinates are huge (cost only)",
         "draw_text is always called with the format \"%s\"; its width/height out-parameters are not part of the property and are not asserted",
+        "a canvas's maximum sample value lies in [1, all-ones of the channel width]; the colour rules that use it (alpha of an opaque canvas, set_has_alpha, set_alpha_from_mask_color, "
+        "invert, blend_blit) are mirrored from phosg with that value in place of the all-ones value; copies carry it, set_channel_width to another width resets it to all-ones",
+        "widen-then-narrow on a canvas with its own maximum value is compared pixelwise only (set_channel_width resets the maximum value by design, so operator== with the original is false)",
         "self copy/move assignment is not generated",
     ],
     min_evaluations_quick=200000,
